@@ -11,7 +11,7 @@ R = 0.1  # sphere radius
 THETA = 0.4 * 1.0 * R * R  # solid sphere m = 1
 
 
-def solver_options(tol=1e-10, max_iter=2000):
+def solver_options(tol=1e-10, max_iter=1000):
     from cardillo.solver import SolverOptions
 
     return SolverOptions(newton_atol=tol, newton_rtol=tol, fixed_point_atol=tol, fixed_point_rtol=tol, fixed_point_max_iter=max_iter,
@@ -52,6 +52,7 @@ SCENES = {
     "rb_slide": dict(force_free=False, contacts=1, what="rigid ball touching the plane, sliding without spin (slip -> roll transition)"),
     "rb_incline": dict(force_free=False, contacts=1, what="rigid ball at rest on a plane inclined by 20 degrees (rotated frame)"),
     "pm_incline": dict(force_free=False, contacts=1, what="point mass sliding down/along a plane inclined by 20 degrees (rotated frame)"),
+    "rb_moving_plane": dict(force_free=False, contacts=1, what="rigid ball dropped on a plane that oscillates vertically and horizontally (explicit time dependence: g_N_dot(t,q,0) != 0)"),
     "rb_hit_free": dict(force_free=True, contacts=1, what="spinning rigid ball hitting the plane obliquely, no gravity"),
     "s2s_headon": dict(force_free=True, contacts=1, what="two rigid spheres, head-on, no gravity"),
     "s2s_oblique": dict(force_free=True, contacts=1, what="rigid sphere and point-mass sphere, oblique impact with spin, no gravity"),
@@ -90,6 +91,13 @@ def build(scene, e_N, mu, t0=0.0, options=None):
             b = _rb("ball", r0)
         else:
             b = _pm("ball", r0, v=A @ np.array([0.1, 0.25, 0.0]))
+        system.add(fr, b, Force(1.0 * grav, b, name="grav"), Sphere2Plane(fr, b, mu=mu, r=R, e_N=e_N, e_F=e_F, name="floor"))
+    elif scene == "rb_moving_plane":
+        a, w1, c, w2 = 0.03, 4.0, 0.02, 6.0
+        fr = Frame(r_OP=lambda t: np.array([a * np.sin(w1 * t), 0.0, c * np.sin(w2 * t)]),
+                   r_OP_t=lambda t: np.array([a * w1 * np.cos(w1 * t), 0.0, c * w2 * np.cos(w2 * t)]),
+                   r_OP_tt=lambda t: np.array([-a * w1 * w1 * np.sin(w1 * t), 0.0, -c * w2 * w2 * np.sin(w2 * t)]), name="table")
+        b = _rb("ball", (0, 0, R + 0.015), v=(0.1, 0.05, -0.3), om=(1.0, 0.0, 0.0))
         system.add(fr, b, Force(1.0 * grav, b, name="grav"), Sphere2Plane(fr, b, mu=mu, r=R, e_N=e_N, e_F=e_F, name="floor"))
     elif scene == "rb_hit_free":
         b = _rb("ball", (0, 0, R + 0.02), v=(0.3, -0.2, -0.7), om=(2.0, -1.0, 0.5))
